@@ -184,13 +184,13 @@ void chk_run_case(uint64_t seed, long c, bool is_sweep)
                         if (wide_cmd && chance(40)) {      /* a WRITE whose every argument is acceptable, so that the decoder walks the whole list */
                                 in_puts("AT"); in_puts(wide_cmd->name); if (!wide_cmd->implicit_write) in_putc('=');
                                 for (size_t j = 0; j < wide_cmd->var_num; j++) {
-                                        const struct cat_variable *v = &wide_cmd->var[j]; char t[40] = "";
+                                        const struct cat_variable *v = &wide_cmd->var[j]; char t[300] = "";      /* the command's table may have been replaced by a shared one meanwhile: sizes up to 64 */
                                         switch (v->type) {
                                         case CAT_VAR_INT_DEC: snprintf(t, sizeof t, "%d", (int)rn(200) - 100); break;
                                         case CAT_VAR_UINT_DEC: snprintf(t, sizeof t, "%u", rn(200)); break;
                                         case CAT_VAR_NUM_HEX: snprintf(t, sizeof t, "0x%X", rn(200)); break;
-                                        case CAT_VAR_BUF_HEX: for (size_t b = 0; b < v->data_size; b++) snprintf(t + 2 * b, 3, "%02X", rn(256)); break;
-                                        default: { size_t L = rn((unsigned)v->data_size); t[0] = '"'; for (size_t b = 0; b < L; b++) t[1 + b] = (char)('a' + rn(26)); t[1 + L] = '"'; t[2 + L] = 0; } break;
+                                        case CAT_VAR_BUF_HEX: for (size_t b = 0; b < v->data_size && b < 100; b++) snprintf(t + 2 * b, 3, "%02X", rn(256)); break;
+                                        default: { size_t L = rn((unsigned)v->data_size); if (L > 200) L = 200; t[0] = '"'; for (size_t b = 0; b < L; b++) t[1 + b] = (char)('a' + rn(26)); t[1 + L] = '"'; t[2 + L] = 0; } break;
                                         }
                                         if (j) in_putc(',');
                                         in_puts(t);
